@@ -23,7 +23,7 @@ Definition CstrsOk (x : op) : Prop := Forall cstr_ok (op_cstrs x).
 
 Definition is_mutator (x : op) : bool :=
   match x with
-  | OAsgC _ | OAsgS _ | OAsgFs | OCtorC _ | OCtorS _ | OCtorMv | OCtorCp
+  | OAsgC _ | OAsgS _ | OAsgFs | OCtorC _ | OCtorS _ | OCtorMv | OCtorCp | OCtorFs
   | OInsNC _ _ _ | OInsPC _ _ _ | OInsC _ _ | OInsS _ _ | OInsSS _ _ _ _ | OInsFs _ | OInsFss _ _ _
   | OInsIt _ _ | OInsItN _ _ _ | OErase _ _ | OEraseIt _ | OEraseItr _ _ | OPush _ | OPop
   | OAppNC _ _ | OPeCh _ | OAppS _ | OAppFs | OAppSS _ _ _ | OAppFss _ _ | OAppPC _ _ | OAppC _
@@ -44,9 +44,8 @@ Proof. intros H. rewrite H. apply take_carr. Qed.
 Lemma drop_carr_le x p k : p + k <= nlen x -> take k (drop p (carr x)) = take k (drop p x).
 Proof. intros H. unfold carr. pw. Qed.
 
-Section Refine3.
+Section Cut.
 Variable L : N.
-Hypothesis HL : CapOk L.
 
 Lemma cut_abs s : Inv L s -> cut L (abs s) = abs s.
 Proof. intros Hs. unfold cut. apply take_all. rewrite (abs_len L s Hs). destruct Hs as (_ & H & _). assumption. Qed.
@@ -61,9 +60,18 @@ Proof. intros. unfold abs. rewrite take_take. f_equal. lia. Qed.
 Lemma sub_buf_abs o p k : Inv L o -> p + k <= len o -> take k (drop p (buf o)) = take k (drop p (abs o)).
 Proof. intros (Hb & Hl & Hz) H. unfold abs. pw. Qed.
 
+End Cut.
+
+Section Refine3.
+(** capacity of the object and of the other object *)
+Variable L : N.
+Hypothesis HL : CapOk L.
+Variable Lo : N.
+Hypothesis HLo : CapOk Lo.
+
 Definition mut_ok (s o : fs) (x : op) : Prop :=
   forall cs' cos' rs, std_step (abs s) (abs o) x = Some (cs', cos', rs) ->
-  exists s' o' r, step L s o x = Ok (s', o', r) /\ abs s' = cut L cs' /\ abs o' = cut L cos'.
+  exists s' o' r, step L s o x = Ok (s', o', r) /\ abs s' = cut L cs' /\ abs o' = cut Lo cos'.
 
 Ltac dom H :=
   cbn [std_step] in H; cbv zeta in H; unfold guard in H;
@@ -76,14 +84,18 @@ Ltac dom H :=
 (** finish a case: the step is [upd o r] and [r] is known *)
 Ltac fin_upd E Ho :=
   cbn [step]; unfold upd; rewrite E; cbn [bind];
-  eexists _, _, _; split; [reflexivity|]; split; [|symmetry; apply (cut_abs _ Ho)].
+  eexists _, _, _; split; [reflexivity|]; split; [|symmetry; apply (cut_abs _ _ Ho)].
 
 Theorem mut_refines s o x :
-  Inv L s -> Inv L o -> Bounded x -> CstrsOk x -> is_mutator x = true -> mut_ok s o x.
+  Inv L s -> Inv Lo o -> Bounded x -> CstrsOk x -> cap_ok (Lo =? L) x = true -> is_mutator x = true ->
+  mut_ok s o x.
 Proof.
-  intros Hs Ho HB HC Hm cs' cos' rs Hstd.
+  intros Hs Ho HB HC Hcap Hm cs' cos' rs Hstd.
   pose proof Hs as (Hb & Hl & Hz). pose proof Ho as (Hbo & Hlo & Hzo). pose proof HL as [HL1 HL2].
-  pose proof (abs_len L s Hs) as Las. pose proof (abs_len L o Ho) as Lao.
+  pose proof HLo as [HLo1 HLo2].
+  pose proof (abs_len L s Hs) as Las. pose proof (abs_len Lo o Ho) as Lao.
+  assert (Hsame : mixed_ok x = false -> Lo = L).
+  { unfold cap_ok in Hcap. destruct (N.eqb_spec Lo L); [auto|]. intros H. congruence. }
   destruct x; try discriminate Hm; clear Hm; unb HB;
     unfold CstrsOk in HC; cbn [op_cstrs] in HC;
     try (apply Forall_cons_iff in HC; destruct HC as [HC _]);
@@ -108,19 +120,24 @@ Proof.
       [apply zero_fs_len|rewrite nlen_carr; lia|].
     fin_upd E Ho. rewrite A, take_carr. reflexivity.
   - (* ctor_mv *)
-    cbn [step]. unfold upd, ctor_mv. rewrite trunc_id by assumption.
+    rewrite (Hsame eq_refl) in *. cbn [step]. unfold upd, ctor_mv. rewrite trunc_id by assumption.
     destruct (N.ltb_spec 0 (len o)).
     + destruct (assign_arr_refines L HL (zero_fs L) (buf o) (len o)) as (s' & E & A);
         [apply zero_fs_len|lia|].
       unfold assign_arr in E. replace (N.min L (len o)) with (len o) in E by lia.
       rewrite E. cbn [bind]. eexists _, _, _; split; [reflexivity|].
-      split; [|symmetry; apply (cut_abs _ Ho)]. rewrite A. reflexivity.
+      split; [|symmetry; apply (cut_abs _ _ Ho)]. rewrite A. reflexivity.
     + cbn [bind]. eexists _, _, _; split; [reflexivity|].
-      split; [|symmetry; apply (cut_abs _ Ho)].
+      split; [|symmetry; apply (cut_abs _ _ Ho)].
       unfold abs at 1 2. cbn [buf len]. replace (len o) with 0 by lia. rewrite !take_0. reflexivity.
   - (* ctor_cp *)
+    rewrite (Hsame eq_refl) in *.
     cbn [step]. unfold upd. cbn [bind]. eexists _, _, _; split; [reflexivity|].
-    split; symmetry; apply (cut_abs _ Ho).
+    split; symmetry; apply (cut_abs _ _ Ho).
+  - (* ctor_fs: converting constructor from another capacity *)
+    destruct (assign_arr_refines L HL (zero_fs L) (buf o) (len o)) as (s' & E & A);
+      [apply zero_fs_len|lia|].
+    fin_upd E Ho. rewrite A. reflexivity.
   - (* ins_nc *)
     destruct (insert_nc_refines L HL s i c ch) as (s' & E & A); [assumption|lia|assumption|].
     fin_upd E Ho. rewrite A. unfold repc. destruct (c <=? BIG); [reflexivity|lia].
@@ -143,7 +160,7 @@ Proof.
     destruct (insert_pc_refines L HL s i (carr (std_substr x is k)) (nlen (std_substr x is k)))
       as (s' & E & A); [assumption|lia|unfold M64 in *; lia|rewrite nlen_carr; lia|].
     rewrite E. cbn [bind]. eexists _, _, _; split; [reflexivity|].
-    split; [|symmetry; apply (cut_abs _ Ho)]. rewrite A, take_carr. reflexivity.
+    split; [|symmetry; apply (cut_abs _ _ Ho)]. rewrite A, take_carr. reflexivity.
   - (* ins_fs *)
     destruct (insert_pc_refines L HL s i (buf o) (len o)) as (s' & E & A);
       [assumption|lia|unfold M64 in *; lia|lia|].
@@ -154,20 +171,20 @@ Proof.
     destruct (insert_pc_refines L HL s i (drop is (buf o)) (N.min (len o - is) k))
       as (s' & E & A); [assumption|lia|unfold M64 in *; lia|nl; lia|].
     rewrite E. cbn [bind]. eexists _, _, _; split; [reflexivity|].
-    split; [|symmetry; apply (cut_abs _ Ho)]. rewrite A. f_equal. f_equal.
-    unfold std_substr. rewrite Lao, (N.min_comm k). apply (sub_buf_abs o is _ Ho). lia.
+    split; [|symmetry; apply (cut_abs _ _ Ho)]. rewrite A. f_equal. f_equal.
+    unfold std_substr. rewrite Lao, (N.min_comm k). apply (sub_buf_abs _ o is _ Ho). lia.
   - (* ins_it *)
     cbn [step]. unfold insert_it, it_at. destruct (N.ltb_spec p (len s)); [|lia].
     destruct (N.eqb_spec p NPOS); [unfold NPOS, M64 in *; lia|].
     destruct (insert_nc_refines L HL s p 1 ch) as (s' & E & A); [assumption|lia|unfold M64; lia|].
     rewrite E. cbn [bind fst snd]. eexists _, _, _; split; [reflexivity|].
-    split; [|symmetry; apply (cut_abs _ Ho)]. rewrite A. reflexivity.
+    split; [|symmetry; apply (cut_abs _ _ Ho)]. rewrite A. reflexivity.
   - (* ins_itn *)
     cbn [step]. unfold insert_it, it_at. destruct (N.ltb_spec p (len s)); [|lia].
     destruct (N.eqb_spec p NPOS); [unfold NPOS, M64 in *; lia|].
     destruct (insert_nc_refines L HL s p c ch) as (s' & E & A); [assumption|lia|assumption|].
     rewrite E. cbn [bind fst snd]. eexists _, _, _; split; [reflexivity|].
-    split; [|symmetry; apply (cut_abs _ Ho)]. rewrite A. unfold repc. destruct (c <=? BIG); [reflexivity|lia].
+    split; [|symmetry; apply (cut_abs _ _ Ho)]. rewrite A. unfold repc. destruct (c <=? BIG); [reflexivity|lia].
   - (* erase *)
     destruct (erase_refines L HL s i c) as (s' & E & A); [assumption|assumption|assumption|lia|].
     fin_upd E Ho. assumption.
@@ -176,53 +193,53 @@ Proof.
     destruct (N.eqb_spec p NPOS); [unfold NPOS, M64 in *; lia|].
     destruct (erase_refines L HL s p 1) as (s' & E & A); [assumption|assumption|unfold M64; lia|lia|].
     rewrite E. cbn [bind fst snd]. eexists _, _, _; split; [reflexivity|].
-    split; [|symmetry; apply (cut_abs _ Ho)]. assumption.
+    split; [|symmetry; apply (cut_abs _ _ Ho)]. assumption.
   - (* erase_itr *)
     cbn [step]. unfold erase_itr, it_at. cbv zeta. destruct (N.ltb_spec p (len s)); [|lia].
     destruct (N.eqb_spec p NPOS); [unfold NPOS, M64 in *; lia|]. cbn [orb].
     destruct (N.ltb_spec q (len s)).
     + destruct (N.eqb_spec p q).
       * subst q. eexists _, _, _; split; [reflexivity|].
-        split; [|symmetry; apply (cut_abs _ Ho)]. rewrite N.sub_diag. unfold std_erase.
-        rewrite N.min_0_l, N.add_0_r, take_drop. symmetry. apply (cut_abs _ Hs).
+        split; [|symmetry; apply (cut_abs _ _ Ho)]. rewrite N.sub_diag. unfold std_erase.
+        rewrite N.min_0_l, N.add_0_r, take_drop. symmetry. apply (cut_abs L _ Hs).
       * destruct (N.eqb_spec q NPOS); [unfold NPOS, M64 in *; lia|].
         rewrite sub64_small by (unfold M64 in *; lia).
         destruct (erase_refines L HL s p (q - p)) as (s' & E & A); [assumption|assumption|unfold M64 in *; lia|lia|].
         rewrite E. cbn [bind fst snd]. eexists _, _, _; split; [reflexivity|].
-        split; [|symmetry; apply (cut_abs _ Ho)]. assumption.
+        split; [|symmetry; apply (cut_abs _ _ Ho)]. assumption.
     + destruct (N.eqb_spec p NPOS); [contradiction|]. rewrite N.eqb_refl.
       destruct (erase_refines L HL s p NPOS) as (s' & E & A); [assumption|assumption|unfold NPOS, M64; lia|lia|].
       rewrite E. cbn [bind fst snd]. eexists _, _, _; split; [reflexivity|].
-      split; [|symmetry; apply (cut_abs _ Ho)]. rewrite A. unfold std_erase. rewrite Las.
+      split; [|symmetry; apply (cut_abs _ _ Ho)]. rewrite A. unfold std_erase. rewrite Las.
       f_equal. f_equal. f_equal. unfold NPOS, M64 in *. lia.
   - (* push *)
     destruct (push_back_refines L HL s ch Hs) as (s' & E & A). fin_upd E Ho. assumption.
   - (* pop *)
     destruct (pop_back_refines L HL s Hs) as (s' & E & A); [lia|].
-    fin_upd E Ho. rewrite A. symmetry. apply cut_short. nl. lia.
+    fin_upd E Ho. rewrite A. symmetry. apply (cut_short L). nl. lia.
   - (* app_nc *)
     cbn [step]. unfold upd, append_nc. destruct (N.eqb_spec (len s) L).
     + cbn [bind]. eexists _, _, _; split; [reflexivity|].
-      split; [|symmetry; apply (cut_abs _ Ho)]. unfold cut. rewrite take_app_l by lia.
+      split; [|symmetry; apply (cut_abs _ _ Ho)]. unfold cut. rewrite take_app_l by lia.
       symmetry. apply take_all. lia.
     + cbv zeta. rewrite sub64_small by (unfold M64 in *; lia).
       destruct (append_impl_refines L HL s (carr (rep ch (N.min c (L - len s)))) 0
                   (nlen (rep ch (N.min c (L - len s))))) as (s' & E & A);
         [assumption|unfold M64; lia|nl; unfold M64 in *; lia|nl; lia|].
       rewrite E. cbn [bind]. eexists _, _, _; split; [reflexivity|].
-      split; [|symmetry; apply (cut_abs _ Ho)]. rewrite A, drop_0, take_carr.
+      split; [|symmetry; apply (cut_abs _ _ Ho)]. rewrite A, drop_0, take_carr.
       unfold repc. destruct (c <=? BIG); [|lia]. unfold cut, abs. pw.
   - (* pe_ch *)
     cbn [step]. unfold upd, append_nc. destruct (N.eqb_spec (len s) L).
     + cbn [bind]. eexists _, _, _; split; [reflexivity|].
-      split; [|symmetry; apply (cut_abs _ Ho)]. unfold cut. rewrite take_app_l by lia.
+      split; [|symmetry; apply (cut_abs _ _ Ho)]. unfold cut. rewrite take_app_l by lia.
       symmetry. apply take_all. lia.
     + cbv zeta. rewrite sub64_small by (unfold M64 in *; lia).
       destruct (append_impl_refines L HL s (carr (rep ch (N.min 1 (L - len s)))) 0
                   (nlen (rep ch (N.min 1 (L - len s))))) as (s' & E & A);
         [assumption|unfold M64; lia|nl; unfold M64 in *; lia|nl; lia|].
       rewrite E. cbn [bind]. eexists _, _, _; split; [reflexivity|].
-      split; [|symmetry; apply (cut_abs _ Ho)]. rewrite A, drop_0, take_carr.
+      split; [|symmetry; apply (cut_abs _ _ Ho)]. rewrite A, drop_0, take_carr.
       replace (N.min 1 (L - len s)) with 1 by lia. reflexivity.
   - (* app_s *)
     destruct (append_impl_refines L HL s (carr x) 0 (nlen x)) as (s' & E & A);
@@ -238,7 +255,7 @@ Proof.
     destruct (append_impl_refines L HL s (carr x) p (N.min c (nlen x - p))) as (s' & E & A);
       [assumption|assumption|unfold M64 in *; lia|rewrite nlen_carr; lia|].
     rewrite E. cbn [bind]. eexists _, _, _; split; [reflexivity|].
-    split; [|symmetry; apply (cut_abs _ Ho)]. rewrite A. unfold std_substr.
+    split; [|symmetry; apply (cut_abs _ _ Ho)]. rewrite A. unfold std_substr.
     rewrite drop_carr_le by lia. reflexivity.
   - (* app_fss *)
     cbn [step]. unfold upd, append_fss. destruct (N.ltb_spec (len o) p); [lia|].
@@ -246,8 +263,8 @@ Proof.
     destruct (append_impl_refines L HL s (buf o) p (N.min c (len o - p))) as (s' & E & A);
       [assumption|assumption|unfold M64 in *; lia|lia|].
     rewrite E. cbn [bind]. eexists _, _, _; split; [reflexivity|].
-    split; [|symmetry; apply (cut_abs _ Ho)]. rewrite A. unfold std_substr. rewrite Lao.
-    rewrite (sub_buf_abs o p _ Ho) by lia. reflexivity.
+    split; [|symmetry; apply (cut_abs _ _ Ho)]. rewrite A. unfold std_substr. rewrite Lao.
+    rewrite (sub_buf_abs _ o p _ Ho) by lia. reflexivity.
   - (* app_pc *)
     destruct (append_impl_refines L HL s (carr cs) 0 (N.min k (cstrlen cs))) as (s' & E & A);
       [assumption|unfold M64; lia|unfold M64 in *; lia|rewrite nlen_carr, HC; lia|].
@@ -258,16 +275,16 @@ Proof.
       [assumption|unfold M64; lia|rewrite HC; unfold M64 in *; lia|rewrite nlen_carr, HC; lia|].
     fin_upd E Ho. rewrite A, drop_0, take_carr_c by assumption. reflexivity.
   - (* app_it *)
-    cbn [step]. unfold upd, append_it, it_at. cbv zeta.
+    rewrite (Hsame eq_refl) in *. cbn [step]. unfold upd, append_it, it_at. cbv zeta.
     assert (Hq : q <= len o) by lia. assert (Hpq : p <= q) by lia.
     destruct (N.ltb_spec p (len o)) as [Hp|Hp]; destruct (N.ltb_spec q (len o)) as [Hq'|Hq'].
     + destruct (N.eqb_spec p q); cbn [orb].
       * subst q. cbn [bind]. eexists _, _, _; split; [reflexivity|].
-        split; [|symmetry; apply (cut_abs _ Ho)]. rewrite N.sub_diag, take_0, app_nil_r.
-        symmetry. apply (cut_abs _ Hs).
+        split; [|symmetry; apply (cut_abs _ _ Ho)]. rewrite N.sub_diag, take_0, app_nil_r.
+        symmetry. apply (cut_abs L _ Hs).
       * destruct (N.eqb_spec (len s) L).
         -- cbn [bind]. eexists _, _, _; split; [reflexivity|].
-           split; [|symmetry; apply (cut_abs _ Ho)]. unfold cut. rewrite take_app_l by lia.
+           split; [|symmetry; apply (cut_abs _ _ Ho)]. unfold cut. rewrite take_app_l by lia.
            symmetry. apply take_all. lia.
         -- destruct (N.eqb_spec p NPOS); [unfold NPOS, M64 in *; lia|].
            destruct (N.eqb_spec q NPOS); [unfold NPOS, M64 in *; lia|].
@@ -275,32 +292,32 @@ Proof.
            destruct (append_impl_refines L HL s (drop p (buf o)) 0 (q - p)) as (s' & E & A);
              [assumption|unfold M64; lia|unfold M64 in *; lia|nl; lia|].
            rewrite E. cbn [bind]. eexists _, _, _; split; [reflexivity|].
-           split; [|symmetry; apply (cut_abs _ Ho)]. rewrite A, drop_0.
-           rewrite (sub_buf_abs o p _ Ho) by lia. reflexivity.
+           split; [|symmetry; apply (cut_abs _ _ Ho)]. rewrite A, drop_0.
+           rewrite (sub_buf_abs _ o p _ Ho) by lia. reflexivity.
     + assert (q = len o) by lia. subst q.
       destruct (N.eqb_spec p NPOS); cbn [orb]; [unfold NPOS, M64 in *; lia|].
       destruct (N.eqb_spec (len s) L).
       * cbn [bind]. eexists _, _, _; split; [reflexivity|].
-        split; [|symmetry; apply (cut_abs _ Ho)]. unfold cut. rewrite take_app_l by lia.
+        split; [|symmetry; apply (cut_abs _ _ Ho)]. unfold cut. rewrite take_app_l by lia.
         symmetry. apply take_all. lia.
       * rewrite N.eqb_refl. rewrite sub64_small by (unfold M64 in *; lia).
         destruct (append_impl_refines L HL s (drop p (buf o)) 0 (len o - p)) as (s' & E & A);
           [assumption|unfold M64; lia|unfold M64 in *; lia|nl; lia|].
         rewrite E. cbn [bind]. eexists _, _, _; split; [reflexivity|].
-        split; [|symmetry; apply (cut_abs _ Ho)]. rewrite A, drop_0.
-        rewrite (sub_buf_abs o p _ Ho) by lia. reflexivity.
+        split; [|symmetry; apply (cut_abs _ _ Ho)]. rewrite A, drop_0.
+        rewrite (sub_buf_abs _ o p _ Ho) by lia. reflexivity.
     + lia.
     + rewrite N.eqb_refl. cbn [orb bind]. eexists _, _, _; split; [reflexivity|].
-      split; [|symmetry; apply (cut_abs _ Ho)].
+      split; [|symmetry; apply (cut_abs _ _ Ho)].
       assert (p = q) by lia. subst q. rewrite N.sub_diag, take_0, app_nil_r.
-      symmetry. apply (cut_abs _ Hs).
+      symmetry. apply (cut_abs L _ Hs).
   - (* sprintf *)
     destruct (sprintf_refines L HL s x Hs) as (s' & E & A). fin_upd E Ho. assumption.
   - (* sprintf with a failing conversion *)
     cbn [step]. unfold upd, sprintf_fail.
     pose proof (glibc_partial_len L wide x) as Hw.
     rewrite mcpy_blit by len_side. cbn [bind]. rewrite (fin_blit L HL) by len_side. cbn [bind].
-    eexists _, _, _; split; [reflexivity|]. split; [|symmetry; apply (cut_abs _ Ho)].
+    eexists _, _, _; split; [reflexivity|]. split; [|symmetry; apply (cut_abs _ _ Ho)].
     unfold abs, cut. cbn [buf len]. rewrite !take_0. reflexivity.
   - (* rep_fs *)
     destruct (replace_impl_refines L HL s p c (buf o) 0 (len o)) as (s' & E & A);
@@ -316,15 +333,15 @@ Proof.
     destruct (replace_impl_refines L HL s p c (buf o) p2 (N.min c2 (len o - p2))) as (s' & E & A);
       [assumption|lia|assumption|assumption|unfold M64 in *; lia|lia|].
     rewrite E. cbn [bind]. eexists _, _, _; split; [reflexivity|].
-    split; [|symmetry; apply (cut_abs _ Ho)]. rewrite A. unfold std_substr. rewrite Lao.
-    rewrite (sub_buf_abs o p2 _ Ho) by lia. reflexivity.
+    split; [|symmetry; apply (cut_abs _ _ Ho)]. rewrite A. unfold std_substr. rewrite Lao.
+    rewrite (sub_buf_abs _ o p2 _ Ho) by lia. reflexivity.
   - (* rep_ss *)
     cbn [step]. unfold upd, replace_sub. destruct (N.ltb_spec (nlen x) p2); [lia|].
     rewrite sub64_small by (unfold M64 in *; lia).
     destruct (replace_impl_refines L HL s p c (carr x) p2 (N.min c2 (nlen x - p2))) as (s' & E & A);
       [assumption|lia|assumption|assumption|unfold M64 in *; lia|rewrite nlen_carr; lia|].
     rewrite E. cbn [bind]. eexists _, _, _; split; [reflexivity|].
-    split; [|symmetry; apply (cut_abs _ Ho)]. rewrite A. unfold std_substr.
+    split; [|symmetry; apply (cut_abs _ _ Ho)]. rewrite A. unfold std_substr.
     rewrite drop_carr_le by lia. reflexivity.
   - (* rep_c *)
     destruct (replace_impl_refines L HL s p c (carr cs) 0 (cstrlen cs)) as (s' & E & A);
@@ -341,12 +358,13 @@ Proof.
       as (s' & E & A);
       [assumption|lia|assumption|unfold M64; lia|nl; unfold M64 in *; lia|nl; lia|].
     rewrite E. cbn [bind]. eexists _, _, _; split; [reflexivity|].
-    split; [|symmetry; apply (cut_abs _ Ho)]. rewrite A, drop_0, take_carr.
+    split; [|symmetry; apply (cut_abs _ _ Ho)]. rewrite A, drop_0, take_carr.
     unfold repc. destruct (c2 <=? BIG); [|lia]. unfold cut, std_replace, abs. pw.
   - (* swap *)
+    rewrite (Hsame eq_refl) in *.
     destruct (swap_refines L HL s o Hs Ho) as (s' & o' & E & A1 & A2).
     cbn [step]. rewrite E. cbn [bind fst snd]. eexists _, _, _; split; [reflexivity|].
-    rewrite A1, A2. split; symmetry; [apply (cut_abs _ Ho)|apply (cut_abs _ Hs)].
+    rewrite A1, A2. split; symmetry; [apply (cut_abs _ _ Ho)|apply (cut_abs L _ Hs)].
   - (* clear *)
     destruct (clear_refines L HL s Hs) as (s' & E & A). fin_upd E Ho. rewrite A. reflexivity.
 Qed.
